@@ -648,6 +648,16 @@ class Runner:
             for k, b in self.srcmodel.items():
                 if self.src.get_object_content(k) != b:
                     raise Fail({'C14'}, 'import modified the source container')
+            # objects the destination already holds are not written again (same hash: filtered out beforehand; different hash: no_holes):
+            # every pack grew by exactly the bytes of the newly indexed entries
+            if before is not None:
+                old_rows = set(map(tuple, before['rows']))
+                for pid, data in raw['packs'].items():
+                    grown = len(data) - len(before['packs'].get(pid, b''))
+                    newref = sum(r[4] for r in raw['rows'] if r[2] == pid and tuple(r) not in old_rows)
+                    if grown != newref:
+                        raise Fail({'C14', 'C09'}, f'import (hash {self.ht2}->{self.ht}) grew pack {pid} by {grown} bytes for {newref} newly indexed bytes: '
+                                                   f'content the destination already held was written again')
 
     def _chk_fds(self, op, before, raw):
         from disk_objectstore.exceptions import NotExistent
